@@ -19,8 +19,9 @@ import (
 )
 
 type c12Scenario struct {
-	Args  []int64 `json:"args"`
-	Label string  `json:"label"`
+	Args   []int64                `json:"args"`
+	Label  string                 `json:"label"`
+	Inputs map[string]interface{} `json:"inputs"`
 }
 
 func TestVerifReplayC12(t *testing.T) {
@@ -96,6 +97,7 @@ func TestVerifReplayC12(t *testing.T) {
 				tk = task.FromCommands("sleep 0.2", "sleep 0.2")
 			}
 			tk.Name = fmt.Sprintf("t%d", i)
+			tk.AllowFailure, _ = sc.Inputs[fmt.Sprintf("allow_failure.%d", i)].(bool)
 			wg.Add(1)
 			go func() {
 				defer wg.Done()
